@@ -34,6 +34,9 @@ type Action struct {
 	On  int      `json:"on"` // handle selector (mod number of live copies)
 	U   []uint64 `json:"u,omitempty"`
 	Hex []string `json:"hex,omitempty"` // SSZ bytes of struct/root arguments
+	// Near > 0 (setters of container-typed fields): the value written is the CURRENT value of the field with exactly
+	// its (Near-1 mod #fields)-th field changed (an update that corrects one field), instead of Hex[0]
+	Near uint64 `json:"near,omitempty"`
 }
 
 func (a *Action) u(i int) uint64 {
@@ -144,6 +147,7 @@ type outcome struct {
 	wantErr bool // the library must return an error (precondition of the operation not met)
 	big     bool // touched a list/vector spanning more than one chunk
 	noop    bool // op not applicable to this fork: skipped on both sides
+	near    bool // the value written was the current one with a single field changed
 }
 
 type hctx struct {
@@ -186,6 +190,17 @@ func listFields(t *refssz.Type) []int {
 	return out
 }
 
+// nearFields: setters that take a whole container -> the state field they write.
+var nearFields = map[string]string{
+	"SetLatestExecutionPayloadHeader": "latest_execution_payload_header",
+	"SetPreviousJustifiedCheckpoint":  "previous_justified_checkpoint",
+	"SetCurrentJustifiedCheckpoint":   "current_justified_checkpoint",
+	"SetFinalizedCheckpoint":          "finalized_checkpoint",
+	"SetFork":                         "fork",
+	"SetEth1Data":                     "eth1_data",
+	"SetLatestBlockHeader":            "latest_block_header",
+}
+
 // apply executes one action on the library state and on the model. It returns the outcome
 // the model predicts and the library's error.
 func apply(hc *hctx, h *handle, a *Action) (out outcome, lerr error) {
@@ -211,6 +226,14 @@ func apply(hc *hctx, h *handle, a *Action) (out outcome, lerr error) {
 		return true
 	}
 	altairPlus := hc.forkI >= 1
+	if fname, ok := nearFields[a.Op]; ok && a.Near > 0 && m.t.FieldIndex(fname) >= 0 && len(a.Hex) > 0 {
+		if cur, isC := m.get(fname).([]any); isC && m.ft(fname).Kind == refssz.KContainer {
+			b := *a
+			b.Hex = append([]string{hex.EncodeToString(refssz.Serialize(m.ft(fname), refssz.NearValue(m.ft(fname), cur, a.Near-1)))}, a.Hex[min(1, len(a.Hex)):]...)
+			a = &b
+			out.near = true
+		}
+	}
 	switch a.Op {
 	case "SetGenesisTime":
 		setU("genesis_time", func() error { return st.SetGenesisTime(common.Timestamp(a.u(0))) })
@@ -879,6 +902,9 @@ func runHistory(c *Case) (*report.Failure, *histInfo) {
 				if out.big {
 					info.big++
 				}
+				if out.near {
+					info.kinds[a.Op+"(near-write)"] = true
+				}
 				if copies > 0 {
 					info.afterCopy++
 					mutatedSinceCopy[hi] = true
@@ -1023,6 +1049,9 @@ func genAction(rt *rapid.T, p *reg.Preset, fork string, fi int, stateT *refssz.T
 		a.U = []uint64{uint64(rapid.IntRange(0, 30).Draw(rt, "lf"))}
 	case "CopyState":
 		a.U = []uint64{uint64(rapid.IntRange(0, 1).Draw(rt, "slot"))}
+	}
+	if _, ok := nearFields[a.Op]; ok && rapid.IntRange(0, 2).Draw(rt, "near") == 0 {
+		a.Near = 1 + rapid.Uint64Range(0, 31).Draw(rt, "near_field")
 	}
 	return a
 }
